@@ -118,6 +118,41 @@ func extract(dir string) int {
 		}
 	}
 	fmt.Printf("requireAuthDecls %d\n", n)
+	// limiter table facts: the model never deletes an address from `hits` and writes `hits[key]`
+	// only inside Allow.  Reported so that the check can widen its many-addresses search when the
+	// code starts pruning the table (the pruning rule itself is then tested dynamically).
+	deletes, writesOutside := 0, 0
+	for _, p := range pkgs {
+		for _, f := range p.Files {
+			for _, d := range f.Decls {
+				fd, ok := d.(*ast.FuncDecl)
+				if !ok || fd.Body == nil {
+					continue
+				}
+				ast.Inspect(fd.Body, func(n ast.Node) bool {
+					switch x := n.(type) {
+					case *ast.CallExpr:
+						if id, ok := x.Fun.(*ast.Ident); ok && id.Name == "delete" && len(x.Args) == 2 {
+							if sel, ok := x.Args[0].(*ast.SelectorExpr); ok && sel.Sel.Name == "hits" {
+								deletes++
+							}
+						}
+					case *ast.AssignStmt:
+						for _, lhs := range x.Lhs {
+							if ix, ok := lhs.(*ast.IndexExpr); ok {
+								lhs = ix.X
+							}
+							if sel, ok := lhs.(*ast.SelectorExpr); ok && sel.Sel.Name == "hits" && fd.Name.Name != "Allow" {
+								writesOutside++
+							}
+						}
+					}
+					return true
+				})
+			}
+		}
+	}
+	fmt.Printf("limiterHitsDeletes %d\nlimiterHitsWritesOutsideAllow %d\n", deletes, writesOutside)
 	return 0
 }
 
@@ -128,6 +163,38 @@ type harness struct {
 	va      *console.VerifAuth
 	h       http.Handler
 	tokens  []string
+	// real-time observations of the last successful login (auth mode)
+	lastAfter time.Time // time.Now() right after the login handler returned
+	lastOK    bool
+}
+
+// sleepToPhase sleeps until the wall clock is `ms` milliseconds into a second.
+func sleepToPhase(ms int) {
+	now := time.Now()
+	cur := now.Nanosecond() / 1e6
+	d := (ms - cur + 1000) % 1000
+	time.Sleep(time.Duration(d) * time.Millisecond)
+}
+
+// expiryClass compares the STORED expiry of a fresh session with login instant + ttl.  The login
+// instant is only known to lie in [before, after] (both read around the handler call), so the
+// stored expiry must lie in [before+ttl, after+ttl]; no fixed tolerance is involved.
+func (s *harness) expiryClass(tok string, before, after time.Time) string {
+	if s.mode != "auth" || s.va == nil {
+		return ""
+	}
+	exp, ok := s.va.Expiry(tok)
+	if !ok {
+		return " exp=missing"
+	}
+	ttl := s.va.TTL()
+	switch {
+	case exp.After(after.Add(ttl)):
+		return " exp=late"
+	case exp.Before(before.Add(ttl)):
+		return " exp=early"
+	}
+	return " exp=ok"
 }
 
 func (s *harness) cookie(ref string) *http.Cookie {
@@ -273,6 +340,7 @@ func main() {
 					cfg.Password = ""
 				}
 				s.tokens = nil
+				s.lastOK = false
 				s.mode = f[1]
 				s.enabled = en
 				if f[1] == "auth" {
@@ -304,7 +372,9 @@ func main() {
 				if f[4] != "ok" {
 					body = `{"username": [`
 				}
+				before := time.Now()
 				rec := s.do(f[3], "/ui/api/auth/login", remote, nil, body)
+				after := time.Now()
 				cls := map[int]string{200: "ok", 401: "denied", 429: "limited", 400: "badpayload", 405: "method", 503: "disabled"}[rec.Code]
 				if cls == "" {
 					cls = "other" + strconv.Itoa(rec.Code)
@@ -325,7 +395,8 @@ func main() {
 							}
 						}
 						s.tokens = append(s.tokens, got)
-						cls += " tok=" + strconv.Itoa(len(s.tokens)-1)
+						cls += " tok=" + strconv.Itoa(len(s.tokens)-1) + s.expiryClass(got, before, after)
+						s.lastAfter, s.lastOK = after, true
 					}
 				} else if got != "" {
 					cls += " cookie-on-failure"
@@ -354,6 +425,46 @@ func main() {
 					cls = "s" + strconv.Itoa(rec.Code) + "+handler-ran"
 				}
 				return "preq " + cls + s.dump("")
+			case f[0] == "phase" && len(f) == 2:
+				// real time: wait until the wall clock is f[1] ms into a second (no virtual time passes)
+				ms, err := strconv.Atoi(f[1])
+				if err != nil || ms < 0 || ms > 999 || s.mode != "auth" {
+					return "bad-op"
+				}
+				sleepToPhase(ms)
+				return "phase"
+			case f[0] == "await" && len(f) == 2:
+				// real time: wait until the last login's ttl has really elapsed (login returned at
+				// lastAfter, so any correct expiry is <= lastAfter+ttl), issue the request right then,
+				// and top the virtual clock up so that exactly ttl+1 s have passed in total.
+				if s.mode != "auth" {
+					return "bad-op"
+				}
+				ttl := s.va.TTL()
+				total := ttl + time.Second
+				start := time.Now()
+				if s.lastOK && ttl <= 3*time.Second {
+					target := s.lastAfter.Add(ttl)
+					for !time.Now().After(target) {
+						time.Sleep(time.Until(target) + 200*time.Microsecond)
+					}
+				} else {
+					s.va.Shift(total)
+					total = 0
+				}
+				s.lastOK = false
+				before := s.ran
+				rec := s.do("GET", "/protected", "10.0.0.9:1", s.cookie(f[1]), "")
+				cls := statusClass(rec.Code)
+				if s.ran != before && !strings.HasPrefix(cls, "s2") {
+					cls = "s" + strconv.Itoa(rec.Code) + "+handler-ran"
+				} else if s.ran == before && strings.HasPrefix(cls, "s2") {
+					cls = "unauth"
+				}
+				if rest := total - time.Since(start); rest > 0 {
+					s.va.Shift(rest)
+				}
+				return "await " + cls + s.dump("")
 			case f[0] == "sess" && len(f) == 2:
 				rec := s.do("GET", "/ui/api/auth/session", "10.0.0.9:1", s.cookie(f[1]), "")
 				a := "false"
